@@ -409,6 +409,10 @@ class Parser:
                 self.stream.expect("comma")
             arg = self.parse_assign_target(name_only=True)
             arg.set_ctx("param")
+            # Python compares identifiers in their NFKC form.
+            norm = unicodedata.normalize("NFKC", arg.name)
+            if any(unicodedata.normalize("NFKC", a.name) == norm for a in args):
+                self.fail(f"duplicate argument {arg.name!r}", arg.lineno)
             if self.stream.skip_if("assign"):
                 defaults.append(self.parse_expression())
             elif defaults:
